@@ -9,6 +9,8 @@ import Proofs.C04
 #print axioms TW.C04.count_insertAt
 #print axioms TW.C04.filter_insertAt
 #print axioms TW.C04.gwcs_one_corr_frame
+#print axioms TW.C04.gwcs_frames_valid
+#print axioms TW.C04.gwcs_history_frames_valid
 #print axioms TW.C04.skyCorr_comp
 #print axioms TW.C04.fits_compose_ref_plane
 #print axioms TW.C04.fits_compose_own_plane
